@@ -97,14 +97,35 @@ NEEDS = {
  'C18e': ("kern importer built through a helper that attaches the collecting error listener to the parser only", "a cell with a character the kern lexer does not know, in a non-kern spine"),
  'C19e': ("an invisible barline (=-) no longer opens a measure", "a score with an invisible barline and a cut placed at it"),
  'C20e': ("_write creates the target directory with mkdir() without parents=True", "dump to a path whose parent and grand-parent directories are both missing"),
+ 'C01f': ("rest decorations appended without de-duplication (exitRestDecoration rewritten)", "a rest that repeats a signifier, or a chord with a rest sharing a signifier with another member"),
+ 'C02f': ("'same spine' of two adjacent *v decided by the header TEXT instead of the header node", "two neighbouring spines of the same type, both split and joined on one line so that the *v runs touch"),
+ 'C03f': ("regex fast path for plain tokens drops the %n of a rational rest", "a plain rest with a rational duration (8%3r) in a **kern spine"),
+ 'C04f': ("BekernTokenizer removes DECORATION from the caller's category set in place", "one set object of categories reused (ExportOptions) for a basic export and then another view"),
+ 'C05f': ("TokenizerFactory re-expands a list/tuple of categories with valid()", "the final selection handed over as a list or tuple in an ExportOptions object, a note sub-part excluded under a selected ancestor"),
+ 'C06f': ("terminator row of a to_measure export counted from tree nodes gated by spine type only", "to_measure together with a proper subset of spine_ids"),
+ 'C07f': ("export_string writes to_measure=None into the caller's ExportOptions when to_measure == M", "one ExportOptions object used on a document with exactly to_measure measures and then on another document"),
+ 'C08f': ("SignatureNodes stores the meter symbol in the time signature's entry", "a spine with *M4/4 and *met(c) before the range, range starting at measure >= 1"),
+ 'C09f': ("direction moved before the format parameters in the transposer signatures", "format (and direction) passed positionally to transpose / transpose_encoding_to_agnostic / transpose_agnostic_to_encoding"),
+ 'C10f': ("agnostic conversion drops accidentals held inside the PITCH sub-token (with_accidentals=False)", "agnostic export of a document produced by to_transposed"),
+ 'C11f': ("match() shortcut for a bare include category tests only 'target inside include'", "include passed as a bare enum member, exclude omitted, target a strict ancestor of include"),
+ 'C12f': ("import_string strips the text before splitting it into lines", "a text that starts with blank lines and contains a malformed cell (reported line numbers)"),
+ 'C13f': ("resolved spine selection written back into the caller's ExportOptions", "one ExportOptions object reused after changing its selection or on another document"),
+ 'C14f': ("export_string replaces spine_ids=None by the document's ids in the caller's ExportOptions", "an ExportOptions object with spine_ids=None reused on a document with more spines / inspected afterwards"),
+ 'C15f': ("error message helper pops from the shared AVAILABLE_INTERVALS list", "a to_transposed call with an unknown interval name, then a transposition by the last names of the table (octave, m7 ...)"),
+ 'C16f': ("importer collects validation errors in a list that is never emptied", "one HumdrumPitchImporter reused after it rejected a mixed-accidental / mixed-letter text"),
+ 'C17f': ("traversal default 'filter or all categories'", "a filter passed as an empty container ([], (), set())"),
+ 'C18f': ("*above / *below / *centered get category DYNAMICS, which the **dynam importer accepts from the kern parser", "a **dynam / **dyn cell '*above:2', '*centered:1' (parameter the grammar does not consume)"),
+ 'C19f': ("concat joins with (separator or '')", "separator=None passed explicitly with fragments that do not end in a line break"),
+ 'C20f': ("store opens (creates / truncates) the target before exporting", "dump with an option set the exporter rejects, to an existing or a fresh path"),
 }
-MISSED_FIRST = {'C02a', 'C04a', 'C10a', 'C16a', 'C20a', 'C20b', 'C18b', 'C03d', 'C17e', 'C14e', 'C10e', 'C04e', 'C12e', 'C08e', 'C19e'}
-STRENGTHENED_BEFORE_FIRST_RUN = {'C16b', 'C04b', 'C11b', 'C11c', 'C09c', 'C04c', 'C01c', 'C07d', 'C06d', 'C12d', 'C10d', 'C09e', 'C18e', 'C03e', 'C11e', 'C02e'}
+MISSED_FIRST = {'C02a', 'C04a', 'C10a', 'C16a', 'C20a', 'C20b', 'C18b', 'C03d', 'C17e', 'C14e', 'C10e', 'C04e', 'C12e', 'C08e', 'C19e', 'C17f', 'C16f', 'C20f', 'C07f', 'C09f', 'C04f', 'C13f', 'C06f', 'C19f', 'C15f', 'C18f', 'C12f', 'C10f'}
+STRENGTHENED_BEFORE_FIRST_RUN = {'C16b', 'C04b', 'C11b', 'C11c', 'C09c', 'C04c', 'C01c', 'C07d', 'C06d', 'C12d', 'C10d', 'C09e', 'C18e', 'C03e', 'C11e', 'C02e', 'C05f'}
 HEAD = subprocess.run(['git', '-C', '/repo', 'rev-parse', '--short', 'HEAD'], capture_output=True, text=True).stdout.strip()
 # changes that a later fix: commit in /repo made harmless (kept for the record; they were confirmed and caught at the commit named)
 NEUTRALISED = {
  'C08a': ('ff25841', 'fix "nested splits closed by one multi-way join...": the cancelled flags this change corrupts are no longer consulted for a spine that is back to one sub-spine; demo exits 0 with the patch on the repaired tree'),
  'C08b': ('ff25841', 'same fix: the flag this change fails to set is no longer needed'),
+ 'C03e': ('fe1b803', 'fix d049240 "the page bounding box no longer aliases the first box token": the box fields this change exports are no longer corrupted by the importer, so rebuilding the cell from them round-trips; demo exits 0 with the patch on the repaired tree'),
 }
 
 for sid, (what, needs) in sorted(NEEDS.items()):
